@@ -110,13 +110,16 @@ def run(tier):
         conform(cfg, ["prims-vectors", vf, o])
         _merge(ck, json.load(open(o)), "" if cfg == "stable" else "[%s] " % cfg)
     nproc = min(12, NCPU)
-    for s in range(80 if thorough else 1):
+    for s in range(300 if thorough else 1):
         reps = parallel("stable", lambda o, k, n: ["prims-sweep-c07", o, ck.seed + s, 1100, k, n], nproc, os.path.join(wd, "sweep"))
         for rep in reps:
             _merge(ck, rep, "")
-    reps = parallel(RELEASE, lambda o, k, n: ["prims-sweep-c07", o, ck.seed, 1100, k, n], nproc, os.path.join(wd, "sweep_release"))
-    for rep in reps:
-        _merge(ck, rep, "[%s] " % RELEASE)
+    # every other build configuration sweeps every length too (thorough: nightly and the SIMD backend with their own seeds)
+    for cfg in [RELEASE] + (["nightly", "simd"] if thorough else []):
+        for s in range(25 if thorough else 1):
+            reps = parallel(cfg, lambda o, k, n: ["prims-sweep-c07", o, ck.seed + 5000 * (s > 0) + s, 1100, k, n], nproc, os.path.join(wd, "sweep_" + cfg))
+            for rep in reps:
+                _merge(ck, rep, "[%s] " % cfg)
     if not ck.cov["distinct_nontrivial"]:
         ck.cov["distinct_nontrivial"] = len(jobs) + 1101
     ck.cov["vectors_from_tla_reference"] = len(jobs)
